@@ -242,6 +242,25 @@ func runC17(c *fw.Ctx) {
 					c.Violate("bare-vs-quoted", "C17:bare:"+h.name+":"+valueClass(want), fmt.Sprintf("%s: quoted %s gives %q, bare %s gives %s %q", h.name, q, got, want, ob.Kind, gb), map[string]interface{}{"host": h.name, "value": want})
 				}
 			}
+			// the blanks between the keyword and the parameter are not part of the value: every run of
+			// 1..2 blanks and tabs gives the same reading, quoted and bare (values of length <= 2)
+			if len(s) <= 2 && o.OK() {
+				for _, sep := range []string{"  ", "\t", " \t", "\t ", "\t\t"} {
+					for _, src := range []string{q, want} {
+						if src == want && !bareOK(want) {
+							continue
+						}
+						text := strings.Replace(h.doc(src), " "+src, sep+src, 1)
+						g2, o2, f2 := read(h, text)
+						if o2.Crashed() {
+							continue
+						}
+						if !(o2.OK() && f2 && g2 == got) {
+							c.Violate("separator-changes-value", "C17:separator:"+h.name+":"+fmt.Sprintf("%q", sep), fmt.Sprintf("%s: %s after the separator %q reads as %s %q, after one blank as %q", h.name, src, sep, o2.Kind, g2, got), map[string]interface{}{"host": h.name, "value": want, "text": text})
+						}
+					}
+				}
+			}
 			if interesting(want) {
 				c.Sample(h.name, 1, map[string]interface{}{"host": h.name, "source": q, "catalog_value": got})
 			}
